@@ -119,6 +119,14 @@ void span_dynamic_cases(Catalogue& c, bool thorough)
             row(true, "span::subspan(offset,count)", "count_past_rest", cat("subspan(1, ", s, ")"), [=](Sp& v) { sink(v.subspan(1, s)); });
             row(true, "span::subspan(offset,count)", "count_past_rest", cat("subspan(", s, ", 1)"), [=](Sp& v) { sink(v.subspan(s, 1)); });
         }
+        // offset valid, offset + count wraps around SIZE_MAX: a check written as `offset + count <= size()` misses these
+        // (added after seeded breakage c05_subspan_sum_wraps)
+        for (std::size_t o = 2; o <= s; ++o) {
+            for (std::size_t cnt : {dyn - o + 1, dyn - 1}) {
+                row(true, "span::subspan(offset,count)", "sum_wraps", cat("subspan(", o, ", SIZE_MAX-", dyn - cnt, ")"),
+                    [=](Sp& v) { sink(v.subspan(o, cnt)); });
+            }
+        }
         row(false, "span::first(count)", "count_eq_size", cat("first(", s, ")"), [=](Sp& v) { sink(v.first(s)); });
         row(false, "span::last(count)", "count_eq_size", cat("last(", s, ")"), [=](Sp& v) { sink(v.last(s)); });
         row(false, "span::subspan(offset,count)", "offset_eq_size", cat("subspan(", s, ")"), [=](Sp& v) { sink(v.subspan(s)); });
